@@ -5,6 +5,7 @@ import (
 	"context"
 	"encoding/json"
 	"fmt"
+	"os"
 	"io"
 	"sort"
 	"strings"
@@ -280,6 +281,9 @@ func (h *dbHarness) listener() *pebble.EventListener {
 	return &pebble.EventListener{
 		BackgroundError: func(err error) {
 			h.count("ev.bgerror", 1)
+			if os.Getenv("VERIF_DEBUG") != "" {
+				fmt.Fprintf(os.Stderr, "background error: %v\n", err)
+			}
 			if len(h.bgErrors) < 8 {
 				h.bgErrors = append(h.bgErrors, err.Error())
 			}
@@ -389,6 +393,9 @@ func (h *dbHarness) drive() {
 		return
 	}
 	h.db = db
+	if h.plan.Profile == "files" {
+		h.disk.OnRemove = h.onRemove
+	}
 	h.fmvFloors, h.durScans = nil, nil
 	if v := int(db.FormatMajorVersion()); true {
 		if v < h.fmvSegStart && h.segment > 1 {
@@ -401,6 +408,9 @@ func (h *dbHarness) drive() {
 	}
 	if h.pendingCtx != nil {
 		h.checkRecovered()
+		if h.plan.Profile == "files" {
+			h.checkNoDeadFiles("after crash recovery")
+		}
 	}
 	if h.cfg.Clients > 1 {
 		h.driveConcurrent()
@@ -443,6 +453,9 @@ func (h *dbHarness) closeDB() {
 		return
 	}
 	h.closeAllReaders()
+	if h.plan.Profile == "files" {
+		h.checkNoDeadFiles("before Close")
+	}
 	if err := h.db.Close(); err != nil {
 		h.opErr("close", err)
 	}
@@ -520,6 +533,9 @@ func (h *dbHarness) exec(op *DBOp) {
 		}
 		h.db = db
 		h.checkScan(h.model.Len())
+		if h.plan.Profile == "files" {
+			h.checkNoDeadFiles("after a clean reopen")
+		}
 	case "snap", "snapclose", "snapget", "snapscan":
 		h.execSnap(op)
 	case "iter", "iterclose", "iterclone", "iterop":
